@@ -718,3 +718,32 @@ Qed.
 (* every live instance belongs to a configured process; instance ids are below the counter *)
 Lemma live_configured s n i : inv s -> lookup n (live s) = Some i -> In n (keys (procs s)).
 Proof. intros [_ H] Hl. apply has_true. apply (H n i Hl). Qed.
+
+(* ---------------------------------------------------------------- statements used by Props/C14.v *)
+Lemma update_status s new n : NoDup (keys (procs s)) -> NoDup (keys new) ->
+  lookup n (snd (update s new)) = status_spec (lookup n (procs s)) (lookup n new).
+Proof. intros Hc Hn. apply status_exact; assumption. Qed.
+
+Definition reachable (s : st) : Prop :=
+  exists p0 ps, wf_all ps /\ s = updates (boot p0) ps.
+
+Lemma reachable_inv s : reachable s -> inv s.
+Proof. intros [p0 [ps [_ ->]]]. apply updates_inv, inv_boot. Qed.
+
+(* the clause "launch-relevant configuration unchanged => instance kept" read literally is false of the
+   code: a change of the description alone restarts the process *)
+Lemma keep_if_launch_config_unchanged_refuted :
+  exists s new n c c' i, reachable s /\ NoDup (keys new) /\
+    lookup n (procs s) = Some c /\ lookup n new = Some c' /\
+    (forall f, In f launch_relevant -> get f c = get f c') /\
+    lookup n (live s) = Some i /\ In (EStop n i) (evs (fst (update s new))).
+Proof.
+  exists (boot [(1, [(FDescription, 1)])]), [(1, [(FDescription, 2)])], 1,
+         [(FDescription, 1)], [(FDescription, 2)], 1.
+  split; [exists [(1, [(FDescription, 1)])], []; split; [constructor|reflexivity]|].
+  split; [repeat constructor; cbn; tauto|].
+  split; [reflexivity|]. split; [reflexivity|]. split.
+  - intros f Hf. unfold launch_relevant in Hf.
+    repeat (destruct Hf as [<-|Hf]; [reflexivity|]). destruct Hf.
+  - split; [reflexivity|]. vm_compute. tauto.
+Qed.
